@@ -63,6 +63,42 @@ theorem lastValue_hdrs (s : String) (hs : lower (ascii s) = ascii s) : ∀ (fs :
       rw [lastValue_hdrs s hs fs (n + 1) hc]
       cases hfind : fs.find? (fun f => ciEq f.name s) <;> simp [hdrOf, lower_eq_ciEq _ _ hs, hq]
 
+/-- the last matching value is the value of the last field of that name -/
+theorem lastValue_hdrs_last (s : String) (hs : lower (ascii s) = ascii s) : ∀ (fs : List Field) (n : Nat),
+    lastValue ((fs.zipIdx n).map hdrOf) (ascii s) = ((fs.filter (fun f => ciEq f.name s)).getLast?).map (·.value)
+  | [], _ => rfl
+  | f :: fs, n => by
+    simp only [List.zipIdx_cons, List.map_cons, lastValue, lastValue_hdrs_last s hs fs (n + 1), List.filter_cons]
+    cases hq : ciEq f.name s with
+    | true =>
+      simp only [if_true]
+      cases hr : fs.filter (fun f => ciEq f.name s) with
+      | nil => simp [hdrOf, lower_eq_ciEq _ _ hs, hq]
+      | cons a r =>
+        have : ((f :: a :: r).getLast?) = (a :: r).getLast? := List.getLast?_cons_cons
+        rw [this]
+        cases hg : (a :: r).getLast? with
+        | none => simp at hg
+        | some g => simp
+    | false =>
+      simp only [Bool.false_eq_true, if_false]
+      cases hr : (fs.filter (fun f => ciEq f.name s)).getLast? <;> simp [hdrOf, lower_eq_ciEq _ _ hs, hq]
+
+/-- the Cookie lines of the parsed header list are the Cookie fields, in wire order -/
+theorem cookieHeader_hdrs (fs : List Field) :
+    cookieHeader (hdrsAll fs) = joinSemi ((fs.filter (fun f => ciEq f.name "cookie")).map (·.value)) := by
+  unfold cookieHeader hdrsAll
+  congr 1
+  generalize 0 = n
+  induction fs generalizing n with
+  | nil => rfl
+  | cons f fs ih =>
+    simp only [List.zipIdx_cons, List.map_cons, List.filter_cons]
+    have e : (lower (hdrOf (f, n)).name == ascii "cookie") = ciEq f.name "cookie" := by
+      simp [hdrOf, lower_eq_ciEq _ "cookie" (by decide)]
+    rw [e]
+    cases ciEq f.name "cookie" <;> simp [ih, hdrOf]
+
 theorem find?_filter_of_imp {α} (p q : α → Bool) (l : List α) (h : ∀ x, p x = true → q x = true) :
     (l.filter q).find? p = l.find? p := by
   induction l with
